@@ -1,6 +1,8 @@
 package main
 
 import (
+	"time"
+
 	"github.com/paulmach/orb"
 	"github.com/paulmach/orb/encoding/mvt"
 	"github.com/paulmach/orb/geojson"
@@ -72,6 +74,30 @@ func init() {
 		for _, n := range sizes {
 			for kind := 0; kind < 3; kind++ {
 				c03Big(c, n, kind)
+			}
+		}
+		// the same layers marshalled (plain and gzipped) now and more than a second later: the same bytes
+		{
+			fc := geojson.NewFeatureCollection()
+			f := geojson.NewFeature(orb.Point{1, 2})
+			f.Properties = geojson.Properties{"a": "b"}
+			fc.Append(f)
+			layers := mvt.Layers{mvt.NewLayer("t", fc)}
+			e := map[string]interface{}{"k": "mvtbig", "n": 1, "kind": 9, "nt": 1, "plain": 0, "gz": 0, "np": 1, "ng": 1, "ratio": 0}
+			setCurrent("mvt.MarshalGzipped(twice)", e)
+			site := guard(func() {
+				d1, _ := mvt.Marshal(layers)
+				g1, _ := mvt.MarshalGzipped(layers)
+				time.Sleep(1200 * time.Millisecond)
+				progress()
+				d2, _ := mvt.Marshal(layers)
+				g2, _ := mvt.MarshalGzipped(layers)
+				e["plain"], e["gz"] = b2i(len(d1) > 0 && string(d1) == string(d2)), b2i(len(g1) > 0 && string(g1) == string(g2))
+			})
+			if site != "" {
+				c.emit(panicEvent("mvt.MarshalGzipped(twice)", site, e))
+			} else {
+				c.emit(e)
 			}
 		}
 	})
